@@ -123,7 +123,15 @@ def run(prog, rep):
         me, val = f.params[0], f.params[1]
         stores = [n for n in g.nodes if n.kind == "stmt" and isinstance(n.ast, ast.Assign)
                   and unparse(n.ast.targets[0]) == "%s._name" % me]
-        rep.floor("DOM-4", len(stores), 2, "stores to _name in %s" % f.short)
+        rep.floor("DOM-4", len(stores), 1, "stores to _name in %s" % f.short)
+        # the fallback written as a re-binding of the value (`if not v: v = self._id`, then one store): paths through the re-binding carry the id
+        rebinds = set(n.id for n in g.nodes if n.kind == "stmt" and isinstance(n.ast, ast.Assign) and len(n.ast.targets) == 1
+                      and unparse(n.ast.targets[0]) == val and unparse(n.ast.value) in ("%s._id" % me, "%s.id" % me))
+        for rb in [n for n in g.nodes if n.id in rebinds]:
+            good = known(g, rb, lambda leaf, val=val: "V" if isinstance(leaf, ast.Name) and leaf.id == val else None, lambda a: not a["V"], ["V"]) \
+                or any(any(isinstance(y, ast.Name) and y.id == val for y in ast.walk(t0)) for t0, p0, _ in g.dominating_conditions(rb))
+            rep.check(good, "DOM-4", "%s: fallback to the id" % f.short, "only for an empty new name",
+                      "`%s = self._id` is reachable with a non-empty new name" % val, where(f, rb.ast))
 
         def is_parent(e, f=f, me=me):
             if isinstance(e, ast.Name):
@@ -156,6 +164,10 @@ def run(prog, rep):
                           "_name = self._id is reachable with a non-empty new name", where(f, n.ast))
                 continue
             good_empty = v == val and known(g, n, classify, lambda a: a["V"], ["V"])
+            if v == val and not good_empty and rebinds:
+                from ..logic import must_cross, branch_edge_entails
+                forced = branch_edge_entails(classify, lambda a: a["V"], ["V"])
+                good_empty = must_cross(g, n, lambda src, kind, dst: forced(src, kind, dst) or (dst.id in rebinds and kind != "exc"))
             rep.check(good_empty, "DOM-4", "%s: store of the new name" % f.short, "non-empty value",
                       "_name = %s is reachable with an empty value (no fallback to the id on that path)" % v, where(f, n.ast),
                       witness="obj.name = '' leaves an empty name")
